@@ -15,6 +15,7 @@ mod report;
 mod rng;
 mod sched;
 mod seq;
+mod twin;
 mod world;
 
 use plan::{Job, Plan, ReplayFile};
